@@ -3,6 +3,7 @@ package sim
 import (
 	"bytes"
 	"context"
+	"sync/atomic"
 	"fmt"
 	"strings"
 	"time"
@@ -12,6 +13,8 @@ import (
 	"github.com/prometheus/client_golang/prometheus"
 	"go.uber.org/zap"
 )
+
+var freeCb atomic.Int64
 
 // elObj is one election object (an Inst may create several: restart).
 type elObj struct {
@@ -86,8 +89,12 @@ func (d *Driver) newObj(in *Inst) (*elObj, error) {
 		Priority:              in.cfg.Prio,
 		AllowPriorityTakeover: in.cfg.Takeover,
 		MaxConsecutiveFailures: in.cfg.MaxHealth,
-		Metrics:               &obsMetrics{o: o},
-		Logger:                &obsLogger{o: o},
+	}
+	if !d.free {
+		// observers take the harness lock; in free-run mode (race detector) they would add
+		// happens-before edges between library goroutines that real programs do not have
+		cfg.Metrics = &obsMetrics{o: o}
+		cfg.Logger = &obsLogger{o: o}
 	}
 	if in.cfg.HasHealth {
 		cfg.HealthChecker = &scriptHealth{o: o}
@@ -97,7 +104,10 @@ func (d *Driver) newObj(in *Inst) (*elObj, error) {
 		return nil, err
 	}
 	o.el = el
-	if !in.cfg.NoCallbacks {
+	if d.free {
+		el.OnPromote(func(ctx context.Context, token string) { freeCb.Add(1) })
+		el.OnDemote(func() { freeCb.Add(1) })
+	} else if !in.cfg.NoCallbacks {
 		el.OnPromote(func(ctx context.Context, token string) { o.onPromote(ctx, token) })
 		el.OnDemote(func() { o.onDemote() })
 	}
@@ -296,8 +306,29 @@ func short(s string) string {
 // ---- actions ----
 
 func (d *Driver) doAction(a *Action) {
+	if d.free {
+		// outsider actions touch the store: they use the store lock of free-run mode
+		switch a.Kind {
+		case AOutPut, AOutDelete, AExpire:
+			d.smu.Lock()
+			now := d.now()
+			switch a.Kind {
+			case AOutPut:
+				d.store.Put(a.Key, a.Value, now, 0, writer{inst: -1, op: -1})
+			case AOutDelete:
+				d.store.Delete(a.Key, now, 0, writer{inst: -1, op: -1})
+			default:
+				d.store.ForceExpire(a.Key, now, 0)
+			}
+			d.smu.Unlock()
+			return
+		}
+	}
 	d.mu.Lock()
 	now := d.lastNow
+	if d.free {
+		now = d.now()
+	}
 	var in *Inst
 	if a.Inst >= 0 && a.Inst < len(d.insts) {
 		in = d.insts[a.Inst]
@@ -370,7 +401,13 @@ func (d *Driver) doAction(a *Action) {
 		if a.Kind == ARestart || in.cur == nil {
 			if in.cur != nil && in.running {
 				// restart of a running object = crash of the old one + new object
+				if d.free {
+					d.smu.Lock()
+				}
 				in.cur.dead = true
+				if d.free {
+					d.smu.Unlock()
+				}
 				d.fault("crash")
 			}
 			in.crashed = false
@@ -399,8 +436,10 @@ func (d *Driver) doAction(a *Action) {
 		in.inStopCall++
 		in.running = false
 		ev.WasLeaderAtInv = o.el.IsLeader()
-		if lv := d.store.Live(in.cfg.Group, now); lv != nil && lv.Writer == in.idx && lv.Gen == o.gen {
-			ev.OwnerAtInv = true
+		if !d.free {
+			if lv := d.store.Live(in.cfg.Group, now); lv != nil && lv.Writer == in.idx && lv.Gen == o.gen {
+				ev.OwnerAtInv = true
+			}
 		}
 	case AValidate, AValidateOD:
 		ev.LeaderAtInv = o.el.IsLeader()
@@ -478,6 +517,14 @@ func (d *Driver) apiCall(in *Inst, o *elObj, a *Action, ev *ApiEvt) {
 		}
 	case AStatus:
 		_ = o.el.Status()
+	case AReadAPI:
+		_ = o.el.IsLeader()
+		_ = o.el.LeaderID()
+		_ = o.el.Token()
+		_ = o.el.Status()
+	case ARegister:
+		o.el.OnPromote(func(ctx context.Context, token string) { freeCb.Add(1) })
+		o.el.OnDemote(func() { freeCb.Add(1) })
 	}
 	d.mu.Lock()
 	ev.Err, ev.Bool = err, b
